@@ -1,5 +1,5 @@
 (* C14 — Deep stacks are shortened only in the middle, with an exact elision count. *)
-From SV Require Import Generated.Consts Model.FrameLimit Proofs.FrameLimitProofs Tie.C14.
+From SV Require Import Generated.Consts Model.FrameLimit Proofs.FrameLimitProofs Tie.C14 Generated.FrameLimitGen Proofs.FrameLimitGenProofs.
 From Coq Require Import NArith Lia.
 
 (* The constant regenerated from the source on this run is the one the property text speaks of. *)
@@ -41,7 +41,42 @@ Theorem C14_checker_accepts_model :
     chk_sample (true_frames r extra) (convert limit_n r extra) = true.
 Proof. intros r extra. exact (checker_accepts_model r extra C14_limit_constant). Qed.
 
+(* The tie by translation.  tools/xlate_fl.py re-reads samply/src/shared/stack_depth_limiting_frame_iter.rs on every run and emits
+   `should_elide_frames`, the state enum, `new` and `next` as Gallina (Generated/FrameLimitGen.v; usize subtraction and division are the
+   checked ones of a debug build).  g_limit hint fs = new() for an inner iterator with size hint `hint`, then next() until it returns None,
+   None = a panic.  For every hint and every stream the translation of the current source yields what the model yields, and never panics. *)
+Theorem C14_translation_agrees :
+  forall (hint : nat) (fs : list N), g_limit hint fs = Some (limit limit_n hint fs).
+Proof. exact g_limit_is_model. Qed.
+
+(* checked arithmetic of should_elide_frames::<N>: no underflow and no division by zero for any N > 0 and any length *)
+Theorem C14_translation_arith_safe :
+  forall (n len : nat), 0 < n -> g_should_elide_frames n len = Some (should_elide n len).
+Proof. exact g_should_elide_ok. Qed.
+
+(* hence the property, about the translation of the current source (what flush_samples_to_profile hands the iterator: the frames
+   without truncation markers, the extra label frame first, the hint counting the frames without the label frame) *)
+Theorem C14_main_of_translation :
+  forall (r : raw) (extra : option N),
+    let fs := true_frames r extra in
+    let d := length (drop_markers r) in
+    exists out, g_limit d fs = Some out /\
+    (d < 500 -> out = map Frame fs) /\
+    (500 <= d -> exists k leaf,
+        out = map Frame (firstn 200 fs) ++ Placeholder k :: map Frame leaf /\
+        leaf = skipn (200 + k) fs /\ 0 < k /\ k mod 200 = 0 /\
+        100 <= length leaf <= 300 /\ 200 + k + length leaf = length fs) /\
+    length out <= 501.
+Proof.
+  intros r extra fs d. exists (convert limit_n r extra). split.
+  - unfold convert, fs, d, true_frames. apply g_limit_is_model.
+  - exact (C14_main r extra).
+Qed.
+
 Print Assumptions C14_limit_constant.
+Print Assumptions C14_translation_agrees.
+Print Assumptions C14_translation_arith_safe.
+Print Assumptions C14_main_of_translation.
 Print Assumptions C14_main.
 Print Assumptions C14_limit_char.
 Print Assumptions C14_checker_accepts_model.
@@ -50,3 +85,9 @@ Print Assumptions C14_checker_accepts_model.
 Example ex_depths :
   map (fun d => length (convert limit_n (map Some (arith d 1000%N 16%N)) None)) [499; 500; 700; 1000] = [499; 301; 301; 401].
 Proof. vm_compute. reflexivity. Qed.
+
+(* the translation on the same depths, and on a hint that overstates the stream (the skip loop runs dry: only the root part up to the frame before the cut) *)
+Example ex_translation :
+  map (fun d => option_map (@length outf) (g_limit d (arith d 1000%N 16%N))) [499; 500; 700; 1000] = [Some 499; Some 301; Some 301; Some 401] /\
+  option_map (@length outf) (g_limit 700 (arith 300 1000%N 16%N)) = Some 199.
+Proof. vm_compute. split; reflexivity. Qed.
